@@ -99,6 +99,30 @@ Theorem C02_error_path_preserves_discipline :
 Proof. exact error_path_preserves_discipline. Qed.
 Print Assumptions C02_error_path_preserves_discipline.
 
+(* OP_LOAD_FIELD_VAR applied to a GROUP of objects (loadTopGroup, micro-step model
+   Model.load_field_group): for every number of members and every mix of live members, members
+   that are gone, elements that are no listeners and failing setters - i.e. an error at the first,
+   a middle or the last member, or none - the instruction ends behind its operands with two values
+   popped, which is the successor [exec] lists, and no height on the way exceeds the height before. *)
+Theorem C02_group_store_is_the_normal_successor :
+  forall p pc s succs ms,
+  byte p pc = Some OP_LOAD_FIELD_VAR -> exec p pc s = Some succs ->
+  exists s' mx threw,
+    load_field_group pc (ht s) ms = Some (pc + fieldlen, ht s', mx, threw) /\
+    In (pc + fieldlen, s') succs /\ mk s' = mk s /\ mx <= ht s.
+Proof. exact group_store_is_the_normal_successor. Qed.
+Print Assumptions C02_group_store_is_the_normal_successor.
+
+Example group_store_fails_at_the_middle_member :
+  load_field_group 10 3 [MLive; MDead; MSetterFails; MLive] = Some (19, 1, 3, true).
+Proof. vm_compute. reflexivity. Qed.
+Example group_store_element_is_no_listener :
+  load_field_group 10 3 [MNoListener; MLive] = Some (19, 1, 2, true).
+Proof. vm_compute. reflexivity. Qed.
+Example group_store_reaches_everybody :
+  load_field_group 10 3 [MLive; MLive; MLive] = Some (19, 1, 3, false).
+Proof. vm_compute. reflexivity. Qed.
+
 (* ------------------------------------------------------------------ non-vacuity *)
 
 (* the code the real compiler emitted (dump of harness/C02) for
